@@ -473,6 +473,21 @@ def check_effects(w, rnd, rep, case):
     fit, st = w.fit, w.fit.stats
     sh = fit.ship
     res = None
+    # --- agility: align time from the ship's modified agility and mass
+    try:
+        agi, mass = (None, None) if sh is None else (sh.attrs.get(A.agility), sh.attrs.get(A.mass))
+    except Exception:
+        agi = mass = None
+    got_af, got_al = W._guard(lambda: st.agility_factor), W._guard(lambda: st.align_time)
+    rep.case(kind='effect-agility' if agi is not None and mass is not None else 'effect-agility-absent')
+    if agi is None or mass is None:
+        if got_af is not None or got_al is not None:
+            rep.violate('agility factor / align time %r / %r although the ship has no agility or mass' % (got_af, got_al), case)
+    else:
+        want = -math.log(0.25) * agi * mass / 1000000
+        if isinstance(got_af, str) or not C.close(got_af, want) or got_al != math.ceil(want):
+            rep.violate('agility factor %r / align time %r, from agility %r and mass %r: %r / %r' % (
+                got_af, got_al, agi, mass, want, math.ceil(want)), case)
     # --- EHP family
     if sh is not None:
         hp = [sh.attrs.get(a, 0) for a in (A.hp, A.armor_hp, A.shield_capacity)]
